@@ -1377,6 +1377,8 @@ func main() {
 		fmt.Printf("read-write-read over the full alphabet (%d reads x %d writes): %d histories, complete=%v\n", len(reads), len(writes), done, complete)
 	}
 
+	r.Cov["wavefront_placements_checked_for_disjoint_vgpr_storage"] = placementPass(c)
+
 	// final sweep: every worker's worlds must still equal the background
 	close(pool)
 	for wk := range pool {
@@ -1424,6 +1426,76 @@ func main() {
 
 // ---------------------------------------------------------------------------
 
+// placementPass: the registers of co-resident wavefronts are disjoint cells for every placement the command
+// processor can make on a compute unit. The CP sizes its VGPR allocation mask from the count the CU reports
+// (VRegCounts: the builder's WithVGPRCount, 16384 by default, 32768 on the mi300a platform), hands out first-fit
+// blocks of 4 registers and passes byte offsets; here wavefronts of nV registers each are placed back to back on
+// SIMD 0 until the per-lane capacity (count/64) is used up, every wavefront writes a tag of its own into its
+// first and last register in a few lanes through its register accessor, and then everything is read back.
+func placementPass(c *checker) (placements int) {
+	for _, cfg := range []struct {
+		name  string
+		vgprs int
+	}{{"vgprs16384-builder-default", 16384}, {"vgprs32768-mi300a", 32768}, {"vgprs8192", 8192}} {
+		perLane := cfg.vgprs / 64
+		for _, nV := range []int{24, 64, 128} {
+			nWf := perLane / nV
+			if nWf > 10 { // wavefront pool of a SIMD
+				nWf = 10
+			}
+			placements++
+			msg := safely(func() {
+				engine := sim.NewSerialEngine()
+				u := cu.MakeBuilder().WithEngine(engine).WithVGPRCount([]int{cfg.vgprs, cfg.vgprs, cfg.vgprs, cfg.vgprs}).Build("CU")
+				var ts []timT
+				for k := 0; k < nWf; k++ {
+					raw := rawWf(16, nV, ^uint64(0))
+					wf := wavefront.NewWavefront(raw)
+					wf.RegAccessor = &cu.CURegFileAccessor{CU: u, WF: wf}
+					wg := wavefront.NewWorkGroup(raw.WG, nil)
+					wg.Wfs = append(wg.Wfs, wf)
+					wf.WG = wg
+					u.WfDispatcher.DispatchWf(wf, protocol.WfDispatchLocation{Wavefront: raw, SIMDID: 0, VGPROffset: k * nV * 4, SGPROffset: k * 16 * 4})
+					ts = append(ts, timT{wf})
+				}
+				lanes := []int{0, 1, 31, 63}
+				tag := func(k, which, lane int) []byte {
+					return []byte{byte(0x80 + k), byte(0x10 + which), byte(lane), 0xa5}
+				}
+				for k, t := range ts {
+					for which, reg := range []int{0, nV - 1} {
+						for _, l := range lanes {
+							t.writeReg(insts.VReg(reg), 1, l, tag(k, which, l))
+						}
+					}
+				}
+				for k, t := range ts {
+					for which, reg := range []int{0, nV - 1} {
+						for _, l := range lanes {
+							got := t.readReg(insts.VReg(reg), 1, l)
+							if want := tag(k, which, l); !bytes.Equal(got[:4], want) {
+								owner := "nobody's tag"
+								if got[3] == 0xa5 && got[0] >= 0x80 {
+									owner = fmt.Sprintf("the tag wavefront %d wrote to its %s register in lane %d", got[0]-0x80, []string{"first", "last"}[got[1]&1], got[2])
+								}
+								c.report(&finding{sig: "timing/co-resident-wavefronts-share-vgpr-storage/" + cfg.name,
+									msg: fmt.Sprintf("compute unit with %d VGPRs per SIMD (%d per lane), %d wavefronts of %d VGPRs placed back to back on SIMD 0 (byte offsets 0, %d, ...): wavefront %d reads %x from v%d lane %d, it wrote %x - that is %s",
+										cfg.vgprs, perLane, nWf, nV, nV*4, k, got[:4], reg, l, want, owner),
+									rc: replayCase{World: "placement"}})
+								return
+							}
+						}
+					}
+				}
+			})
+			if msg != "" {
+				c.report(&finding{sig: "timing/placement-panic/" + cfg.name, msg: fmt.Sprintf("%d wavefronts of %d VGPRs on a CU with %d VGPRs per SIMD: %s", nWf, nV, cfg.vgprs, msg), rc: replayCase{World: "placement"}})
+			}
+		}
+	}
+	return placements
+}
+
 func replay(r *harness.Run, full []op) {
 	data, err := os.ReadFile(r.Replay)
 	if err != nil {
@@ -1441,6 +1513,23 @@ func replay(r *harness.Run, full []op) {
 	if err := json.Unmarshal(data, &f); err != nil {
 		fmt.Fprintln(os.Stderr, err)
 		os.Exit(2)
+	}
+	if f.Case.World == "placement" {
+		c := &checker{r: r}
+		placementPass(c)
+		hit := false
+		c.seen.Range(func(k, v any) bool {
+			if k.(string) == f.Signature {
+				hit = true
+			}
+			return true
+		})
+		if hit {
+			fmt.Printf("VIOLATION property=C07 replay=%s\n", r.Replay)
+			os.Exit(1)
+		}
+		fmt.Println("replay: no violation")
+		os.Exit(0)
 	}
 	var w *world
 	if f.Case.World == "emu" {
